@@ -681,7 +681,45 @@ pub fn body(case: &Case, out: &Shared) {
                 o.stats.bump("crash_points_checked", 1);
                 o.stats.fault_fired += 1;
             });
+            let before = out.lock().unwrap().findings.iter().filter(|f| f.concerns("C02")).count();
             rec.check_image(&st, &expect, &format!("after {}", describe(prev)), p, 0, &mut prng);
+            let lost = out.lock().unwrap().findings.iter().filter(|f| f.concerns("C02")).skip(before).any(|f| f.class == "recovered-state-mismatch" || f.class == "recovery-open-failed");
+            if lost {
+                // C11 "nothing live deleted ... that crash recovery still needs": counterfactual
+                // image = the same prefix with the removals of WAL / table / manifest files
+                // skipped. If recovery of THAT image shows the acknowledged state, a file was
+                // removed while crash recovery still needed it.
+                let mut alt = FsState::default();
+                let mut skipped: Vec<String> = vec![];
+                for op in &log[..p] {
+                    if let MutOp::Remove { path } = &op.op {
+                        if matches!(classify(path), FileClass::Wal | FileClass::Table | FileClass::Manifest) {
+                            skipped.push(path.display().to_string());
+                            continue;
+                        }
+                    }
+                    alt.apply(&op.op, None);
+                }
+                if !skipped.is_empty() {
+                    let tmp: Shared = Arc::new(std::sync::Mutex::new(RunOutput::default()));
+                    let rec2 = Recovery { out: &tmp, plan, torn, run_seed: case.run_seed };
+                    let mut prng2 = Rng::new(mix2(case.run_seed, p as u64)).fork("point");
+                    rec2.check_image(&alt, &expect, "counterfactual", p, 2, &mut prng2);
+                    let alt_ok = !tmp.lock().unwrap().findings.iter().any(|f| f.concerns("C02"));
+                    if alt_ok {
+                        push_finding(
+                            out,
+                            Finding::new(
+                                &["C11"],
+                                "needed-file-removed",
+                                "crash-recovery",
+                                format!("crash point {} ({}): recovery loses acknowledged data, but the same crash image with the removed files {:?} still present recovers correctly: a file was removed while crash recovery still needed it", p, describe(prev), skipped.iter().rev().take(4).collect::<Vec<_>>()),
+                                Some(p),
+                            ),
+                        );
+                    }
+                }
+            }
         }
     }
     with_out(out, |o| {
